@@ -92,6 +92,24 @@ def compare_mix(ck, s, o, mode, stats):
         if not exact_num(o["single"][k], num):
             ck.violation("mixture-numerator", {"mode": mode, "state": s, "read": k, "impl_times_den": o["single"][k], "model_num": num},
                          key=dict(base, site=SITE["ll"], variant="single-read", gap=has_gap))
+    # long locus: columns repeated 16 times; exact numerator = sum_h HapNum_h^16 over P * 24^(16 N)
+    if "hn" in s and "tiled" in o:
+        for k, hn in enumerate(s["hn"]):
+            big = sum(int(x) ** 16 for x in hn)
+            for nm in ("tiled", "tiled_struct"):
+                v = o[nm][k]
+                stats["evals"] += 1
+                if big == 0:
+                    ok = (not isinstance(v, str)) and v == -math.inf
+                    wl = "-inf"
+                else:
+                    wl = math.log(big) - math.log(s["P"]) - 16 * s["N"] * math.log(24)
+                    ok = (not isinstance(v, str)) and abs(v - wl) <= 1e-9 * max(1.0, abs(wl))
+                if not ok:
+                    ck.violation("mixture-long-locus", {"mode": mode, "state": {k2: s[k2] for k2 in ("P", "N", "A", "G", "rds")}, "read": k, "columns_repeated": 16,
+                                                        "impl_log": v, "model_log": wl},
+                                 key=dict(base, site=SITE["ll"] if nm == "tiled" else "assemble.likelihood.log_likelihood_structural_change",
+                                          variant="long-locus"))
     if want is None:
         stats["undefined"] += 1
         return
